@@ -185,6 +185,36 @@ func cmdCheck(args []string) int {
 		fmt.Println("INCONCLUSIVE: no harness registered for", prop)
 		return 2
 	}
+	// cross-solver check (thorough tier): every harness is explored again at the quick bounds with z3 5.1.0
+	// and with z3 4.8.12; path outcomes and per-obligation verdict counts must agree exactly
+	crossChecked, crossDisagree := 0, 0
+	if *tier == "thorough" && os.Getenv("VERIF_NO_CROSS") == "" {
+		for _, h := range reg.Harnesses {
+			if !contains(h.Props, prop) || (*only != "" && h.Name != *only) {
+				continue
+			}
+			b := defaultBounds()
+			for k, v := range reg.Defaults["quick"] {
+				b[k] = v
+			}
+			for k, v := range h.Bounds["quick"] {
+				b[k] = v
+			}
+			b["solver_ms"] = 60000
+			if prop == "C20" {
+				b["locks"], b["log"], b["entries"], b["chunk"] = 1, 1, 1, 1
+			}
+			r1 := Explore(w, h.Name, b, *workers, "z3-new", prop)
+			r2 := Explore(w, h.Name, b, *workers, "z3", prop)
+			crossChecked++
+			if d := diffResults(r1, r2); d != "" {
+				crossDisagree++
+				inconclusive = append(inconclusive, fmt.Sprintf("cross-solver disagreement on %s (z3 5.1.0 vs z3 4.8.12): %s", h.Name, d))
+			}
+			fmt.Printf("cross-solver %-24s z3-5.1: paths=%v  z3-4.8.12: paths=%v (%.1fs)\n", h.Name, r1.Paths, r2.Paths, r2.WallSec)
+		}
+	}
+	crossSolverStats = map[string]any{"harnesses_rerun_at_quick_bounds_with_z3_4.8.12": crossChecked, "disagreements": crossDisagree}
 
 	if prop == "C20" {
 		locksetFailures(results)
@@ -339,6 +369,28 @@ func cmdCheck(args []string) int {
 }
 
 var selfTestCount int
+var crossSolverStats map[string]any
+
+// diffResults compares path outcomes and per-label verdict counts of two explorations.
+func diffResults(a, b *HarnessResult) string {
+	for k, v := range a.Paths {
+		if b.Paths[k] != v {
+			return fmt.Sprintf("paths[%s] %d vs %d", k, v, b.Paths[k])
+		}
+	}
+	for k, v := range b.Paths {
+		if a.Paths[k] != v {
+			return fmt.Sprintf("paths[%s] %d vs %d", k, a.Paths[k], v)
+		}
+	}
+	for l, s := range a.Labels {
+		t := b.Labels[l]
+		if t == nil || *s != *t {
+			return fmt.Sprintf("label %s: %+v vs %+v", l, s, t)
+		}
+	}
+	return ""
+}
 
 // spreadSamples picks up to n samples spread over the list.
 func spreadSamples(s []map[string]any, n int) []map[string]any {
@@ -670,6 +722,7 @@ func writeEvidence(vdir, prop, tier string, seed int, results []*HarnessResult, 
 			"ssa_instructions":     ninstr,
 			"solver":               map[string]any{"primary": "z3 5.1.0 (z3-new -in, incremental push/pop)", "queries": queries, "solver_s": round2(solverS)},
 			"native_replays":       replayed,
+			"cross_solver":         crossSolverStats,
 			"translator_selftest":  map[string]any{"witnesses_of_passing_paths_replayed_natively": selfTestCount, "note": "each must finish natively without a failed assertion, violated assumption or panic; a mismatch makes the check inconclusive (exit 2)"},
 			"known_findings_hit":   knownHits,
 			"failing_obligations":  failsum,
